@@ -14,7 +14,18 @@ Inductive cexp :=
 | CCodeRange (lo hi : Z)                 (* lo <= code < hi *)
 | CHeur                                  (* use_name_heuristics *)
 | CNameAuth | CNamePerm | CNameTrans     (* "<s1>" in name or "<s2>" in name ... for the three documented substring lists *)
-| CCodeIsNone.                           (* status is None *)
+| CCodeIsNone                            (* status is None *)
+| CSqlIsNone                             (* sqlstate is None / code is None *)
+| CStrRefused                            (* str(sqlstate) raises ValueError *)
+| CTextIn (cs : list (list Z))           (* code in {"...", ...}   (strings as code points) *)
+| CTextStarts (p : list Z)               (* code.startswith("...") *)
+| COr (a b : cexp)                       (* a or b *)
+| CNot (a : cexp).                       (* not a *)
+
+(** which regular expression _extract_sqlstate searches the string arguments with *)
+Inductive sqsearch := SBoundary | SBracketed.   (* r"\b([0-9A-Z]{5})\b"  |  r"\[([0-9A-Z]{5})\]" *)
+Definition search_of (r : sqsearch) : str -> option str :=
+  match r with SBoundary => search_sqlstate false | SBracketed => search_bracketed end.
 
 (** _coerce_status of extras/http.py: the first int among three attributes, else the first int argument in a range *)
 Inductive pattr := AStatus | AStatusCode | ACode.
@@ -42,6 +53,7 @@ Inductive cprog :=
 | CBindCode (rest : cprog)               (* code = getattr(err, "status", None) or getattr(err, "code", None) *)
 | CBindName (rest : cprog)               (* name = type(err).__name__.lower() *)
 | CBindStatus (v : vprog) (rest : cprog) (* status = _coerce_status(exc) *)
+| CBindSql (r : sqsearch) (rest : cprog) (* sqlstate = getattr(exc, "sqlstate", None) or _extract_sqlstate(getattr(exc, "args", ())) *)
 | CReturnDefault.                        (* return default_classifier(exc) *)
 
 Definition kind_eqb (a b : exn_kind) : bool :=
@@ -51,7 +63,7 @@ Definition kind_eqb (a b : exn_kind) : bool :=
   | _, _ => false
   end.
 
-Definition ceval (heur : bool) (e : pyexc) (code : pyval) (c : cexp) : bool :=
+Fixpoint ceval (heur : bool) (e : pyexc) (code : pyval) (sql : option str) (c : cexp) : bool :=
   match c with
   | CIsInst k => kind_eqb (e_kind e) k
   | CCodeIsInt => match as_int code with Some _ => true | None => false end
@@ -63,19 +75,28 @@ Definition ceval (heur : bool) (e : pyexc) (code : pyval) (c : cexp) : bool :=
   | CNamePerm => e_name_perm e
   | CNameTrans => e_name_trans e
   | CCodeIsNone => match pv_kind code with VNone => true | _ => false end
+  | CSqlIsNone => match sql with None => true | Some _ => false end
+  | CStrRefused => truthy (e_sqlstate e) && str_refused (e_sqlstate e)
+  | CTextIn cs => match sql with Some t => existsb (zlist_eqb (codes t)) cs | None => false end
+  | CTextStarts p => match sql with Some t => starts_with p (codes t) | None => false end
+  | COr a b => ceval heur e code sql a || ceval heur e code sql b
+  | CNot a => negb (ceval heur e code sql a)
   end.
 
-Fixpoint cexec (heur : bool) (e : pyexc) (code : pyval) (p : cprog) : option klass :=
+Fixpoint cexec_sql (heur : bool) (e : pyexc) (code : pyval) (sql : option str) (p : cprog) : option klass :=
   match p with
   | CFall => None
   | CReturn k => Some k
   | CIf c body rest =>
-      if ceval heur e code c
-      then match cexec heur e code body with Some k => Some k | None => cexec heur e code rest end
-      else cexec heur e code rest
-  | CBindCode rest => cexec heur e (py_or (e_status e) (e_code e)) rest
-  | CBindName rest => cexec heur e code rest
+      if ceval heur e code sql c
+      then match cexec_sql heur e code sql body with Some k => Some k | None => cexec_sql heur e code sql rest end
+      else cexec_sql heur e code sql rest
+  | CBindCode rest => cexec_sql heur e (py_or (e_status e) (e_code e)) sql rest
+  | CBindName rest => cexec_sql heur e code sql rest
   | CBindStatus v rest =>
-      cexec heur e (match vexec e v with Some z => {| pv_kind := VInt z; pv_text := [] |} | None => {| pv_kind := VNone; pv_text := [] |} end) rest
+      cexec_sql heur e (match vexec e v with Some z => {| pv_kind := VInt z; pv_text := [] |} | None => {| pv_kind := VNone; pv_text := [] |} end)
+                sql rest
+  | CBindSql r rest => cexec_sql heur e code (sqlstate_text (search_of r) e) rest
   | CReturnDefault => Some (default_classifier e)
   end.
+Definition cexec (heur : bool) (e : pyexc) (code : pyval) (p : cprog) : option klass := cexec_sql heur e code None p.
